@@ -17,11 +17,17 @@ def generate(repo, verif, only=None):
     for m in MODULES:
         if only and m not in only:
             continue
-        mod = importlib.import_module("tools.pygen." + m)
-        rep = {"typed": [], "shapes": {}, "failed": {}, "src": mod.SRC}
+        rep = {"typed": [], "shapes": {}, "failed": {}, "src": "?"}
+        try:
+            mod = importlib.import_module("tools.pygen." + m)
+            rep["src"] = mod.SRC
+        except Exception as e:      # a broken translator module must not take the other properties down
+            rep["failed"]["<import>"] = "%s: %s" % (type(e).__name__, e)
+            report[m] = rep
+            continue
         try:
             items = mod.translate(repo)
-        except (Unrecognised, SyntaxError, OSError, KeyError, IndexError, AttributeError) as e:
+        except Exception as e:
             items = []
             rep["failed"]["<module>"] = "%s: %s" % (type(e).__name__, e)
         lines = [HEADER % mod.SRC, getattr(mod, "PRELUDE", "")]
